@@ -367,12 +367,14 @@ NewComposite ==
   /\ On("composite") /\ Depth /\ Act("newcomposite")
   /\ \E F \in Pick(SUBSET {m \in Members : cid[m] = 0 /\ \A i \in SubsOfMem(m) : alive[i]}) :
      \E G \in Pick(SUBSET (1..ncomp \cap {cid[m] : m \in Members})) :
+     \E dup \in Pick(BOOLEAN) :      \* dup: every handle of a merged composite (and one of its envelopes) is passed
        /\ F \cup G # {}
+       /\ dup => G # {}
        /\ Cardinality(F) + Cardinality(G) <= 3
        /\ ncomp' = ncomp + 1
        /\ cid' = [m \in Members |-> IF m \in F \/ cid[m] \in G THEN ncomp + 1 ELSE cid[m]]
        /\ UNCHANGED <<ens, alive, blk, bkind, contr, known>>
-       /\ Log([a |-> "newcomposite", en |-> "ce", f |-> SortSet(F), gc |-> SortSet(G), rej |-> FALSE])
+       /\ Log([a |-> "newcomposite", en |-> "ce", f |-> SortSet(F), gc |-> SortSet(G), dup |-> dup, rej |-> FALSE])
 
 (***************************************************************************)
 (* Fock cutoff                                                             *)
